@@ -108,35 +108,29 @@ def _ends_with_return(stmts) -> bool:
     return False
 
 
-def _lower_returns(stmts, result_target):
-    """rewrite a body whose returns sit at guards: `if c: return a` REST  ->  `if c: R = a else: REST'`."""
+def _lower_returns(stmts, result_target, cont=None):
+    """continuation-passing rewrite of a body whose returns sit at guards: a `return e` becomes the result
+    assignment and ends the path; an `if` that contains returns gets the statements that follow it (and the
+    caller-supplied continuation) appended to each arm that can fall through."""
+    cont = cont or []
     out = []
     for i, st in enumerate(stmts):
-        rest = stmts[i + 1:]
         if isinstance(st, ast.Return):
             out.extend(_assign_result(st, result_target))
             return out
+        if isinstance(st, ast.Raise):
+            out.append(st)
+            return out
         if isinstance(st, ast.If) and _has(st, ast.Return):
-            body = _lower_returns(st.body, result_target)
-            orelse = _lower_returns(st.orelse, result_target) if st.orelse else []
-            b_ret, o_ret = _ends_with_return(st.body), _ends_with_return(st.orelse) if st.orelse else False
-            if rest:
-                low_rest = _lower_returns(rest, result_target)
-                if b_ret and not o_ret:
-                    orelse = orelse + low_rest
-                elif o_ret and not b_ret:
-                    body = body + low_rest
-                elif not b_ret and not o_ret:
-                    # returns deeper inside; both arms may fall through: duplicate the continuation
-                    body = body + copy.deepcopy(low_rest)
-                    orelse = orelse + low_rest
-                # both return: rest unreachable
+            after = _lower_returns(stmts[i + 1:], result_target, cont)
+            body = _lower_returns(st.body, result_target, copy.deepcopy(after))
+            orelse = _lower_returns(st.orelse, result_target, after) if st.orelse else after
             new = ast.If(test=st.test, body=body or [ast.Pass()], orelse=orelse)
             ast.copy_location(new, st)
             out.append(new)
             return out
         out.append(st)
-    return out
+    return out + cont
 
 
 def _assign_result(ret: ast.Return, result_target):
@@ -311,13 +305,12 @@ class _Inliner:
             selfn = f.args.args[0].arg if f.args.args else None
             methods = self.class_methods.get(owner_cls, {})
             g = methods.get(fn.attr)
-            if g is None or g is f:
-                return None
-            static = any(isinstance(d, ast.Name) and d.id == 'staticmethod' for d in g.decorator_list)
-            if isinstance(fn.value, ast.Name) and fn.value.id == selfn and selfn:
-                return g, fn.value, static
-            if isinstance(fn.value, ast.Name) and fn.value.id in (owner_cls, 'cls') and static:
-                return g, None, True
+            if g is not None and g is not f:
+                static = any(isinstance(d, ast.Name) and d.id == 'staticmethod' for d in g.decorator_list)
+                if isinstance(fn.value, ast.Name) and fn.value.id == selfn and selfn:
+                    return g, fn.value, static
+                if isinstance(fn.value, ast.Name) and fn.value.id in (owner_cls, 'cls') and static:
+                    return g, None, True
         # method of ANOTHER class of this module, receiver a plain name / attribute: resolved only when the method
         # name is unique among the module's classes and the module's functions
         if isinstance(fn, ast.Attribute) and _simple_arg(fn.value):
